@@ -4,6 +4,11 @@
 
 /// Gets the unix timestamp as a duration
 pub fn unix_timestamp() -> std::time::Duration {
+    #[cfg(feature = "verif")]
+    if let Some(now) = crate::verif::now_override() {
+        return now;
+    }
+
     #[cfg(test)]
     #[allow(clippy::significant_drop_in_scrutinee, clippy::expect_used)]
     {
